@@ -304,6 +304,8 @@ def o_str(a):
 
 
 def o_len(a):
+    if isinstance(a, frozenset) and CUR.ns:
+        raise NoMatchingMethodException('len')      # (the `len` of sets is one of the set functions: create_context(no_sets=True))
     if isinstance(a, (str, tuple, list, frozenset, dict)):
         return len(a)
     if is_iterator(a):
@@ -1453,13 +1455,13 @@ def run_lazy(data, ops, binder=None, opts=None):
     the form `$` is bound to (see bind_input)"""
     global CUR
     CUR = opts or Opts()
+    o = data
+    if binder is not None:
+        o = apply_op(o, binder)         # (the binder of `let(..) -> ..` is evaluated before the body)
     if CUR.ns and any(op['op'] in ('set', 'isSet') or op['op'] == 'plusLeft' and isinstance(op['v'], frozenset) for op in ops):
         # written in function style: the (unknown) function is looked up before its argument - the stages in front of it -
         # is evaluated
         raise NoFunctionRegisteredException('set')
-    o = data
-    if binder is not None:
-        o = apply_op(o, binder)
     REF.root = o
     for op in ops:
         o = apply_op(o, op)
